@@ -235,8 +235,10 @@ func (z *Decimal) Parse(s string, base int) (d *Decimal, b int, err error) {
 
 	// entire string must have been consumed
 	if ch, err2 := r.ReadByte(); err2 == nil {
+		d = nil
 		err = fmt.Errorf("expected end of string, found %q", ch)
 	} else if err2 != io.EOF {
+		d = nil
 		err = err2
 	}
 
